@@ -1327,6 +1327,12 @@ func (env *SpecEnv) callExpr(e *SExpr) SVal {
 			vc.needBytes, vc.needStr = true, true
 			return SVal{T: mk("(str-bytes "+x.T.S+")", &Sort{K: SOpaque, Name: "Bytes"})}
 		}
+		if x.GoT != nil {
+			if at, ok := x.GoT.Underlying().(*types.Array); ok {
+				// a byte array value: all of it
+				return SVal{T: vc.bytesOf(env.termOrLoad(x), vc.idxLit(0), vc.idxLit(at.Len()))}
+			}
+		}
 		vw := env.view(x)
 		return SVal{T: vc.bytesOf(vw.Arr, vw.Off, vw.Len)}
 	case "has":
@@ -1532,6 +1538,17 @@ func (vc *VC) declareSpecFn(sf *SpecFn) {
 		env.names[p.Name] = SVal{T: mk(n, s), GoT: gt}
 	}
 	rs, _ := vc.specTypeSort(sf.Ret, sf.Pkg)
+	if sf.Abstract {
+		var psorts []string
+		for _, p := range ps {
+			for _, one := range splitSexp(p) {
+				inner := splitSexp(one[1 : len(one)-1])
+				psorts = append(psorts, strings.Join(inner[1:], " "))
+			}
+		}
+		vc.specFnDecl = append(vc.specFnDecl, fmt.Sprintf("(declare-fun %s (%s) %s)", smtIdent("spec!"+sf.Name), strings.Join(psorts, " "), rs.Name))
+		return
+	}
 	var body Term
 	func() {
 		defer func() {
